@@ -408,8 +408,17 @@ def model_case(ctx: Ctx, cfg, tag=""):
         ctor = models.DilResNet
     x = make_input(geom, D, in_sig, dims, torus)
     try:
-        model = ctor(D, in_sig, out_sig, **kw)
-        out, _ = model(x)
+        if cfg.get("use_batch_norm"):
+            # conventional UNet with BatchNorm (stateful): run in inference mode on one sample.  The signature
+            # calculus treats the normalisation as the identity on (signature, extents, D, flags), so the
+            # Lean prediction is that of the same configuration without batch norm.
+            import equinox as eqx
+
+            model, state = eqx.nn.make_with_state(ctor)(D, in_sig, out_sig, use_batch_norm=True, **kw)
+            out, _ = eqx.nn.inference_mode(model)(x, state)
+        else:
+            model = ctor(D, in_sig, out_sig, **kw)
+            out, _ = model(x)
         impl = observe(out)
     except Exception as e:  # noqa: BLE001
         impl = {"raises": type(e).__name__, "msg": str(e)[:160]}
@@ -526,6 +535,10 @@ def fixed_models(ctx: Ctx):
     L.append(dict(base, **{"class": "dilresnet"}, equivariant=False, input_keys=S(((0, 0), 1), ((1, 0), 1)),
                   output_keys=S(((1, 0), 1), ((2, 1), 1)), use_bias=False, num_blocks=1, kernel_size=2,
                   dims=[3, 3], activation="callable"))
+    # BatchNorm path of the conventional UNet (LayerWrapperAux), mixed boundary flags
+    L.append(dict(base, **{"class": "unet"}, equivariant=False, input_keys=S(((0, 0), 2), ((1, 0), 1)),
+                  output_keys=S(((1, 0), 1), ((0, 0), 3)), use_bias="auto", num_downsamples=1,
+                  num_conv=1, kernel_size=3, use_batch_norm=True, dims=[4, 8], torus=[False, True]))
     # documented rejections (both sides must reject)
     L.append(dict(base, **{"class": "resnet"}, equivariant=False, input_keys=S(((0, 0), 1)),
                   output_keys=S(((0, 0), 1)), use_bias="mean", num_blocks=0, num_conv=1,
